@@ -508,12 +508,13 @@ def _extract_transform(
             return None
         if (original_transform := _extract_geo_transform(crs_coord)) is None:
             return None
+        if not gcp and _xx.encoding.get("_transform", None) is not None:
+            # labels are pixel coordinates of a non-axis aligned geobox
+            fallback_resolution = Resolution(1, 1)
+        else:
+            fallback_resolution = resolution_from_affine(original_transform)
         try:
-            transform = affine_from_axis(
-                _xx.values,
-                _yy.values,
-                resolution_from_affine(original_transform),
-            )
+            transform = affine_from_axis(_xx.values, _yy.values, fallback_resolution)
         except ValueError:
             return None
 
